@@ -158,11 +158,49 @@ class Spies:
         return False
 
 
+def build_with_spec(R, ins, spec):
+    """One build of a history over the Realiser's Vars: names of the arguments / results as the spec says,
+    intermediate values renamed through `Var._rename`, public `build` or the low-level Graph API."""
+    from spox import build
+
+    names = spec.get("names") or {}
+    named_ins = {names.get(role, role): var for role, var in ins.items()}
+    outs = {name: R.env[i] for name, i in spec["outs"]}
+    for var in getattr(R, "renamed", []):
+        var._rename(None)
+    R.renamed = []
+    for i, nm in (spec.get("renames") or {}).items():
+        if i in R.env:
+            R.env[i]._rename(nm)
+            R.renamed.append(R.env[i])
+    if spec.get("low"):
+        from spox._graph import results
+
+        for name, var in named_ins.items():
+            var._rename(name)
+        return results(**outs).with_arguments(*named_ins.values()).to_onnx_model()
+    return build(named_ins, outs)
+
+
+def fresh_build(prog, spec):
+    """The same build on fresh objects (nothing was built before): (model, error)."""
+    try:
+        with warnings.catch_warnings():
+            warnings.simplefilter("ignore")
+            R = L.Realiser()
+            ins, _outs = R.realise(prog)
+            return build_with_spec(R, ins, spec), None
+    except Exception as e:  # noqa: BLE001
+        return None, e
+
+
 def observe(prog):
     """Realise and build the program with the real code (public API only: argument/inline/build, the
     opset modules, to_function). If the program has `prebuild_outs`, the same Vars are first built into
-    another model with those outputs (multi-build history). Returns dict(model, error, stage, spies)."""
-    out = {"model": None, "error": None, "stage": None, "spies": None}
+    another model with those outputs; if it has a `history`, every spec but the last is built first, over
+    the same Vars (multi-build history). Returns dict(model, error, stage, spies, earlier)."""
+    out = {"model": None, "error": None, "stage": None, "spies": None, "earlier": []}
+    specs = prog.get("history") or []
     with Spies() as sp:
         try:
             from spox import build
@@ -177,6 +215,13 @@ def observe(prog):
         except Exception as e:  # noqa: BLE001
             out.update(error=e, stage="construct")
             return out
+        for spec in specs[:-1]:
+            try:
+                with warnings.catch_warnings():
+                    warnings.simplefilter("ignore")
+                    out["earlier"].append((spec, build_with_spec(R, ins, spec), None))
+            except Exception as e:  # noqa: BLE001
+                out["earlier"].append((spec, None, e))
         # function graphs are compiled once and cached: keep what the earlier build showed of them,
         # observe the adaptation of the final build only
         sp.earlier_roots = list(sp.roots)
@@ -185,7 +230,9 @@ def observe(prog):
         try:
             with warnings.catch_warnings():
                 warnings.simplefilter("ignore")
-                if prog.get("with_opset"):
+                if specs:
+                    out["model"] = build_with_spec(R, ins, specs[-1])
+                elif prog.get("with_opset"):
                     # the low-level Graph API: extra opset requirements, possibly spelled "ai.onnx"
                     from spox._graph import results
 
@@ -198,6 +245,30 @@ def observe(prog):
                     out["model"] = build(ins, outs)
         except Exception as e:  # noqa: BLE001
             out.update(error=e, stage="build")
+    return out
+
+
+def history_wiring(prog, obs):
+    """Every build of a history against the same build on fresh objects: the ModelProtos must be equal
+    (a difference is a broken correspondence; the values are judged separately by the oracle)."""
+    out = []
+    specs = prog.get("history") or []
+    if not specs or obs.get("stage") == "construct":
+        return out
+    built = list(obs["earlier"]) + [(specs[-1], obs["model"], obs["error"])]
+    for k, (spec, model, err) in enumerate(built):
+        fm, fe = fresh_build(prog, spec)
+        if (model is None) != (fm is None):
+            out.append(("history", f"build {k + 1} of {len(built)}: after the earlier builds "
+                        f"{'raises ' + type(err).__name__ if model is None else 'succeeds'}, on fresh objects "
+                        f"{'raises ' + type(fe).__name__ if fm is None else 'succeeds'}"))
+        elif model is not None and model.SerializeToString(deterministic=True) != fm.SerializeToString(deterministic=True):
+            diff = ""
+            for a, b in zip(model.graph.node, fm.graph.node):
+                if a != b:
+                    diff = f"{a.name}: inputs {list(a.input)} outputs {list(a.output)} vs {b.name}: inputs {list(b.input)} outputs {list(b.output)}"
+                    break
+            out.append(("history", f"build {k + 1} of {len(built)} differs from the same build on fresh objects ({diff or 'outside the main graph nodes'})"))
     return out
 
 
@@ -543,6 +614,11 @@ def process_case(args):
         except Exception as e:  # noqa: BLE001
             res["real"] = {"request": None, "abe": [], "complete": False,
                            "mismatches": [("correspondence-crash", f"{type(e).__name__}: {e}")]}
+        try:
+            for mm in history_wiring(prog, obs):
+                res["real"].setdefault("mismatches", []).append(mm)
+        except Exception as e:  # noqa: BLE001
+            res["real"].setdefault("mismatches", []).append(("correspondence-crash", f"history: {type(e).__name__}: {e}"))
         verdict = judge(prog, obs)
         sp = obs["spies"]
         st = res["stats"]
@@ -621,11 +697,41 @@ def judge(prog, obs):
             base2 = drop_inlines(base)
             if base2 is not None:
                 b2 = judge1(base2, observe(base2))
-                if b2 is None:
+                if b2 is None and pieces_supported(prog):
                     return v
             UNSUPPORTED.append((v[0], v[1][:120]))
             return None
     return v
+
+
+def pieces_supported(prog) -> bool:
+    """Third parties on the pieces: every inlined legacy model, converted ALONE by onnx.version_converter to
+    the default-domain version the program must import, loads in onnxruntime and computes what it computes
+    at the version it was written in. (onnxruntime 1.30 refuses some converted LogSoftmax models by itself.)"""
+    import onnx
+    import onnx.version_converter
+    import onnxruntime as ort
+
+    tgt = L.expected_imports(prog).get("", 14)
+    for st, *_ in L.walk(prog["nodes"]):
+        if st["op"] != "inline" or st["model"]["kind"] not in ("oldx", "old"):
+            continue
+        md = st["model"]
+        try:
+            m = L.oldx_model(md, for_runtime=True) if md["kind"] == "oldx" else L.old_model(md["body"], md["opset"])
+            if md["opset"] != tgt:
+                m = onnx.version_converter.convert_version(m, tgt)
+            so = ort.SessionOptions()
+            so.log_severity_level = 4
+            sess = ort.InferenceSession(m.SerializeToString(), so, providers=["CPUExecutionProvider"])
+            for x, _y in XS:
+                got = sess.run(None, {"a": x})[0]
+                ref = L.oldx_reference(md, x) if md["kind"] == "oldx" else L.OLD_NP[md["body"]](x)
+                if not np.allclose(got, ref, rtol=2e-3, atol=1e-3, equal_nan=True):
+                    return False
+        except Exception:  # noqa: BLE001
+            return False
+    return True
 
 
 def drop_inlines(prog):
@@ -641,14 +747,35 @@ def drop_inlines(prog):
 
 
 def judge1(prog, obs):
-    """Model-free verdict on one program. Returns (stage, message) of the first failure, or None."""
-    import onnx
-    import onnxruntime as ort
-
+    """Model-free verdict on one program. Returns (stage, message) of the first failure, or None.
+    Every build of a history is judged (the earlier ones first), each against the abstract program its
+    outputs span and fed under the names that build was given."""
+    if obs["error"] is not None and obs["stage"] == "construct":
+        e = obs["error"]
+        return (f"construct-raises-{type(e).__name__}", str(e).splitlines()[0][:160] if str(e) else "")
+    specs = prog.get("history") or []
+    if specs:
+        built = list(obs.get("earlier") or []) + [(specs[-1], obs["model"], obs["error"])]
+        for k, (spec, model, err) in enumerate(built):
+            sub = L.spec_program(prog, spec)
+            tag = f" [build {k + 1} of {len(built)} over the same objects]"
+            if err is not None:
+                return (f"build-raises-{type(err).__name__}", (str(err).splitlines()[0][:140] if str(err) else "") + tag)
+            v = judge_model(sub, model, spec.get("names") or {}, [n for n, _ in spec["outs"]])
+            if v is not None:
+                return (v[0], v[1] + tag)
+        return None
     if obs["error"] is not None:
         e = obs["error"]
         return (f"{obs['stage']}-raises-{type(e).__name__}", str(e).splitlines()[0][:160] if str(e) else "")
-    model = obs["model"]
+    return judge_model(prog, obs["model"], {}, None)
+
+
+def judge_model(prog, model, names, out_names):
+    """One built model against the abstract program (model-free). `names`: role -> input name."""
+    import onnx
+    import onnxruntime as ort
+
     pairs = [("" if o.domain == "ai.onnx" else o.domain, o.version) for o in model.opset_import]
     doms = [d for d, _ in pairs]
     if len(set(doms)) != len(doms):
@@ -691,10 +818,14 @@ def judge1(prog, obs):
         sess = ort.InferenceSession(model.SerializeToString(), so, providers=["CPUExecutionProvider"])
     except Exception as e:  # noqa: BLE001
         return ("runtime-rejects", str(e).splitlines()[0][:200])
+    if out_names is not None and [o.name for o in model.graph.output] != list(out_names):
+        return ("outputs-misnamed", f"outputs {[o.name for o in model.graph.output]}, requested {list(out_names)}")
+    roles = names
     names = {i.name for i in sess.get_inputs()}
     for (x, y) in XS:
         for c in (True, False):
             feed = {"x": x, "y": y, "c": np.array(c), "s": np.array([2, 3], np.int64)}
+            feed = {roles.get(k, k): v for k, v in feed.items()}
             feed = {k: v for k, v in feed.items() if k in names}
             try:
                 got = sess.run(None, feed)
@@ -838,7 +969,30 @@ def shrink(prog, stage, budget=120):
         vis = chk(p["nodes"], {"x", "y"})
         return vis is not False and all(o in vis for o in p["outs"]) and bool(p["nodes"])
 
-    if len(cur["outs"]) > 1:
+    if cur.get("history"):
+        # fewer builds, plainer specs (the last spec is the observed build: its outputs stay the program's)
+        k = 0
+        while k < len(cur["history"]) and len(cur["history"]) > 1:
+            cand = copy.deepcopy(cur)
+            del cand["history"][k]
+            cand["outs"] = [i for _, i in cand["history"][-1]["outs"]]
+            if still(cand):
+                cur = cand
+            else:
+                k += 1
+        for k in range(len(cur["history"])):
+            for field in ("renames", "low"):
+                if field in cur["history"][k]:
+                    cand = copy.deepcopy(cur)
+                    del cand["history"][k][field]
+                    if still(cand):
+                        cur = cand
+        used = {i for sp_ in cur["history"] for _, i in sp_["outs"]}
+        cand = L.prune(dict(copy.deepcopy(cur), outs=sorted(used)))
+        cand["outs"] = list(cur["outs"])
+        if still(cand):
+            cur = cand
+    if len(cur["outs"]) > 1 and not cur.get("history"):
         for o in list(cur["outs"]):
             cand = L.sink(L.prune(dict(cur, outs=[o])))
             if cand["nodes"] and still(cand):
@@ -902,6 +1056,9 @@ def gen_programs(ck):
             p2["outs"] = outs2
             L.align_unknown_rank(p2)
             progs.append(("history", p2))
+        if clean and not has_dyn and "with_opset" not in prog and rng.random() < 0.13:
+            # 2-3 builds over the same Vars, the names given to build changing between them
+            progs.append(("history-names", L.make_history(rng, prog, i)))
     for i in range(ck.pick(150, 2500)):
         progs.append(("inline-mix", L.inline_mix_program(rng, i)))
     return progs
@@ -1049,6 +1206,38 @@ def targeted_programs():
                              "then": {"nodes": [inl("a", "x", body, opset, ml=[mlk, mlv])], "out": "a"},
                              "else": {"nodes": [st("e", "neg", 17, ["x"])], "out": "e"}},
                             lab("m", "y", hi), st("t", top[0], top[1], ["m"]), st("d", "add", 17, ["i", "t"])], "outs": ["d"]})
+    # histories: 2-3 builds over the same Vars, every one needing conversion, names changing between builds
+    SW = {"x": "y", "y": "x"}
+    base = [st("a", "rmean", 17, ["x"], axis=1), st("b", "rmax", 18, ["y"], axis=0), st("d", "sub", 17, ["a", "b"]),
+            st("i17", "identity", 17, ["d"]), st("t", "identity", 21, ["i17"])]
+    P.append({"nodes": base, "outs": ["d"], "history": [{"names": {}, "outs": [["out0", "d"]]},
+                                                         {"names": SW, "outs": [["out0", "d"]]}]})
+    P.append({"nodes": base, "outs": ["t", "a"], "history": [{"names": {}, "outs": [["out0", "t"], ["out1", "a"]]},
+                                                              {"names": {"x": "p", "y": "q"}, "outs": [["out1", "t"], ["out0", "a"]]},
+                                                              {"names": SW, "outs": [["r0", "t"], ["r1", "a"]], "low": True}]})
+    P.append({"nodes": base, "outs": ["t"], "history": [{"names": {}, "outs": [["out0", "t"]], "renames": {"d": "zq0"}},
+                                                         {"names": {}, "outs": [["out0", "t"]], "renames": {"a": "zq0", "i17": "zq1"}},
+                                                         {"names": SW, "outs": [["out0", "t"]]}]})
+    P.append({"nodes": base, "outs": ["i17"], "history": [{"names": {}, "outs": [["out0", "i17"]], "low": True},
+                                                           {"names": SW, "outs": [["other", "i17"], ["out0", "t"]]},
+                                                           {"names": {}, "outs": [["out0", "i17"], ["other", "t"]]}]})
+    hin = [inl("a", "x", "softmax3_reshape", 11, ml=["scaler", 1]), inl("b", "y", "rsum_attr", 12), st("d", "sub", 17, ["a", "b"]),
+           st("e", "rl2", 17, ["d"], axis=1), st("t", "identity", 19, ["e"])]
+    P.append({"nodes": hin, "outs": ["t"], "history": [{"names": {}, "outs": [["out0", "t"]]},
+                                                        {"names": SW, "outs": [["out0", "t"]]},
+                                                        {"names": {"x": "q", "y": "p"}, "outs": [["r", "t"], ["s_", "b"]]}]})
+    P.append({"nodes": hin, "outs": ["t"], "history": [{"names": {}, "outs": [["out0", "b"], ["out1", "t"]]},
+                                                        {"names": SW, "outs": [["out0", "a"], ["out1", "t"]], "renames": {"d": "zq"}},
+                                                        ]})
+    hif = [{"id": "i", "op": "if", "mv": 17, "cond": "c",
+            "then": {"nodes": [st("u", "rmin", 17, ["x"], axis=1)], "out": "u"},
+            "else": {"nodes": [st("w", "rl1", 17, ["y"], axis=0)], "out": "w"}},
+           {"id": "f", "op": "func", "name": "fhist", "params": ["p"], "args": ["y"],
+            "body": {"nodes": [st("q", "rmean", 17, ["p"], axis=0)], "out": "q"}},
+           st("d", "add", 17, ["i", "f"]), st("t", "isnan_w", 20, ["d"])]
+    P.append({"nodes": hif, "outs": ["t", "f"], "history": [{"names": {}, "outs": [["out0", "t"], ["out1", "f"]]},
+                                                             {"names": SW, "outs": [["out0", "t"], ["out1", "f"]]},
+                                                             {"names": {"x": "p", "y": "q"}, "outs": [["out1", "t"], ["out0", "f"]], "low": True}]})
     # v17 If in a v21 model (kept although its schema changed)
     P.append({"nodes": [{"id": "i", "op": "if", "mv": 17, "cond": "nc",
                          "then": {"nodes": [st("t", "identity", 21, ["x"])], "out": "t"},
@@ -1125,7 +1314,8 @@ def run(ck: core.Check):
         ck.broken("translator", "opset_facts.generate", f"{type(e).__name__}: {e}")
         info = {"internal_min_opset": None, "shipped": [], "runs": {}, "compat": []}
     ck.cov["generated"] = {"INTERNAL_MIN_OPSET": info["internal_min_opset"], "shipped_rows": len(info["shipped"]),
-                           "schema_runs": len(info["runs"]), "form_compat_pairs": len(info["compat"])}
+                           "schema_runs": len(info["runs"]), "form_compat_pairs": len(info["compat"]),
+                           "adapt_state": info.get("adapt_state"), "adapt_attr_writes": info.get("adapt_attr_writes")}
     ck.lean(["SpoxModel.Props.C09"], audit="SpoxModel.Audit.C09")
     if ck.thorough:
         ck.leanchecker(["SpoxModel.Props.C09"])
@@ -1248,7 +1438,8 @@ def run(ck: core.Check):
         stats["with_ml"] += int(any(o.startswith("ml_") for o in ops_used))
         stats["with_loop"] += int("loop" in ops_used)
         stats["with_changed_schema_op"] += int(any(o in L.ORT_MACROS for o in ops_used))
-        stats["with_history"] += int("prebuild_outs" in prog)
+        stats["with_history"] += int("prebuild_outs" in prog or "history" in prog)
+        stats["history_builds"] = stats.get("history_builds", 0) + len(prog.get("history") or [])
         for k in ("nodes_adapted", "converted_nodes", "converted_inlines"):
             stats[k] += r["stats"].get(k, 0)
         if "imports" in r["stats"]:
@@ -1277,7 +1468,9 @@ def run(ck: core.Check):
     ck.rule = (
         "fixed witnesses + targeted corner programs + seeded random programs (2-17 statements, If nesting <= 3, "
         "operators from ai.onnx v17-v21 and ai.onnx.ml v3-v5, inlined hand-written models at opsets 11/12/13/15 and "
-        "spox-built models at v17-v21, functions, values of unknown rank; 85% avoid the listed findings by "
+        "spox-built models at v17-v21, legacy models at opsets 9-17 that need real conversion and use ai.onnx.ml 1-3 / a custom "
+        "domain while the domain is requested at another version elsewhere, histories of 2-3 builds over the same objects "
+        "under changing argument / result / value names, functions, values of unknown rank; 85% avoid the listed findings by "
         "construction); non-trivial = at least one conversion or a body; distinct by abstract program"
     )
     ck.assumptions += [
